@@ -7,6 +7,7 @@ mod compose;
 mod gcprog;
 mod gen;
 mod heapmc;
+mod ladders;
 mod outcome;
 mod pool;
 mod printer;
